@@ -19,10 +19,27 @@ package main
 // delay=1: the error answer to the failing DCP_STREAM_REQ is sent 400 ms late;
 // push=1: the node sends one mutation on every stream 30 ms after it was opened.
 //
+// seq=partial:VB[,VB…]: GET_ALL_VB_SEQNOS is answered with status success but WITHOUT an entry for
+// the listed vBuckets (a partial answer; checkpoint.Load reads a missing entry as high seqno 0).
+//
+// Two optional trailing fields (only on the cases that use them; the older lines are unchanged):
+//   end=VB[,VB…]:STATUS:PHASE reref=VBS
+// STATUS = state-changed | disconnected | too-slow | backfill-failed (the re-openable STREAM_END
+// statuses); the node accepts the FIRST stream request of every listed vBucket and then pushes
+// STREAM_END(STATUS) on it.  PHASE s: 20 ms after the accept, while the answers to the first requests
+// of all other vBuckets are held back 400 ms (stream.Open is still inside openAllStreams);
+// PHASE r: 200 ms after every assigned vBucket has been requested (start-up is over).
+// reref: every LATER stream request of these vBuckets is answered with an error status.
+// Such a line is observed as
+//   running reqs=[…every logged request, re-requests included…] events=N ends=[vb:n …] refused=[vb:n …]
+//   exit-fail:<class> events=none|some rereqs=K      (K = most re-requests seen for one ended vBucket)
+// with the additional class reopen-gave-up (reopenStream's panic after its 5 attempts, 1 s apart).
+//
 // The same child entry serves stream c14w (`keydot`, harness/l2_keys.go).
 
 import (
 	"bytes"
+	"encoding/binary"
 	"encoding/json"
 	"fmt"
 	"os"
@@ -128,7 +145,16 @@ func stChild(op, addr string) {
 		os.Exit(3)
 	}
 	os.Stdout.WriteString("READY\n")
-	time.Sleep(250 * time.Millisecond) // pushed events arrive
+	linger := 250 * time.Millisecond // pushed events arrive
+	if e := kv["end"]; e != "" {
+		if strings.HasSuffix(e, ":r") {
+			linger = 1200 * time.Millisecond // the end is pushed 200 ms after the last request; the re-request follows at once
+		}
+		if rr := kv["reref"]; rr != "" && rr != "-" {
+			linger = 7 * time.Second // reopenStream: 5 attempts, 1 s apart, then panic
+		}
+	}
+	time.Sleep(linger)
 	d.Close()
 	select {
 	case <-done:
@@ -185,6 +211,7 @@ var stGuards = []struct{ text, class string }{
 	{"error while getting vBucket seqNos", "seqno-error"},
 	{"error while get failOver logs when initialize latest", "failover-error"},
 	{"error while open stream", "open-error"},
+	{"error while re-open stream", "reopen-gave-up"},
 	{"error while load checkpoint", "load-error"},
 	{"error while loading checkpoint document", "load-error"},
 }
@@ -207,10 +234,40 @@ func stCheckpointJSON(d ckDoc) []byte {
 // stRun executes one st-case line
 func stRun(op string, workDir string) (obs string, tags []string) {
 	t := strings.Fields(op)
-	if len(t) != 19 || t[0] != "st-case" {
+	if (len(t) != 19 && len(t) != 21) || t[0] != "st-case" {
 		return "bad-op", []string{"bad-op"}
 	}
 	kv := ckKV(t[2:])
+	// seq=partial:VBS
+	seqMissing := map[uint16]bool{}
+	if strings.HasPrefix(kv["seq"], "partial:") {
+		m, ok := ckParseVbs(strings.TrimPrefix(kv["seq"], "partial:"))
+		if !ok || len(m) == 0 {
+			return "bad-op", []string{"bad-op"}
+		}
+		seqMissing = m
+	} else if kv["seq"] != "ok" && kv["seq"] != "err" {
+		return "bad-op", []string{"bad-op"}
+	}
+	// end=VBS:STATUS:PHASE reref=VBS
+	endCase := len(t) == 21
+	endVbs, reRef := map[uint16]bool{}, map[uint16]bool{}
+	var endStatus memd.StreamEndStatus
+	endPhase := ""
+	if endCase {
+		f := strings.Split(kv["end"], ":")
+		if len(f) != 3 {
+			return "bad-op", []string{"bad-op"}
+		}
+		var okA, okB, okC bool
+		endVbs, okA = ckParseVbs(f[0])
+		endStatus, okB = stEndStatus[f[1]]
+		endPhase = f[2]
+		reRef, okC = ckParseVbs(kv["reref"])
+		if !okA || !okB || !okC || len(endVbs) == 0 || (endPhase != "s" && endPhase != "r") {
+			return "bad-op", []string{"bad-op"}
+		}
+	}
 	lo, e1 := strconv.Atoi(kv["lo"])
 	hi, e2 := strconv.Atoi(kv["hi"])
 	docs, ok1 := ckParseDocs(kv["docs"])
@@ -262,6 +319,58 @@ func stRun(op string, workDir string) (obs string, tags []string) {
 	delay := kv["delay"] == "1"
 	push := kv["push"] == "1"
 	var pushWg sync.WaitGroup
+	// the partial GET_ALL_VB_SEQNOS answer: (vb uint16, seqno uint64) per vBucket that is not left out
+	var partialSeqnos []byte
+	for vb := 0; vb < n; vb++ {
+		if !seqMissing[uint16(vb)] {
+			partialSeqnos = binary.BigEndian.AppendUint16(partialSeqnos, uint16(vb))
+			partialSeqnos = binary.BigEndian.AppendUint64(partialSeqnos, high[uint16(vb)])
+		}
+	}
+	var endMu sync.Mutex
+	reqCount := map[uint16]int{} // stream requests seen per vBucket
+	ends := map[uint16]int{}     // STREAM_ENDs pushed per vBucket
+	refused := map[uint16]int{}  // stream requests answered with an error status
+	childDone := make(chan struct{})
+	pushEnd := func(vb uint16) {
+		for try := 0; try < 100; try++ {
+			if err := node.PushStreamEnd(vb, endStatus); err == nil {
+				endMu.Lock()
+				ends[vb]++
+				endMu.Unlock()
+				return
+			} else if err != sim.ErrNoStream {
+				return
+			}
+			time.Sleep(10 * time.Millisecond)
+		}
+	}
+	if endCase && endPhase == "r" {
+		pushWg.Add(1)
+		go func() {
+			defer pushWg.Done()
+			for {
+				seenVbs := map[uint16]bool{}
+				for _, r := range node.StreamReqs() {
+					seenVbs[r.Vb] = true
+				}
+				if len(seenVbs) == n {
+					break
+				}
+				select {
+				case <-childDone:
+					return
+				case <-time.After(5 * time.Millisecond):
+				}
+			}
+			time.Sleep(200 * time.Millisecond)
+			for vb := uint16(0); int(vb) < n; vb++ {
+				if endVbs[vb] {
+					pushEnd(vb)
+				}
+			}
+		}()
+	}
 	node.OnRequest(func(r sim.Request) sim.Action {
 		switch r.Opcode {
 		case memd.CmdSubDocMultiLookup:
@@ -272,11 +381,41 @@ func stRun(op string, workDir string) (obs string, tags []string) {
 			if kv["seq"] == "err" {
 				return sim.Status(memd.StatusInternalError)
 			}
+			if len(seqMissing) > 0 {
+				return sim.Action{Kind: sim.KindStatus, Code: memd.StatusSuccess, Value: partialSeqnos}
+			}
 		case memd.CmdDcpGetFailoverLog:
 			if flogErr[r.Vb] {
 				return sim.Status(memd.StatusInternalError)
 			}
 		case memd.CmdDcpStreamReq:
+			if endCase {
+				vb := r.Vb
+				endMu.Lock()
+				reqCount[vb]++
+				k := reqCount[vb]
+				if k > 1 && reRef[vb] {
+					refused[vb]++
+				}
+				endMu.Unlock()
+				switch {
+				case k > 1 && reRef[vb]:
+					return sim.Status(memd.StatusInternalError)
+				case k > 1:
+					return sim.Default()
+				case endPhase == "s" && endVbs[vb]:
+					pushWg.Add(1)
+					go func() {
+						defer pushWg.Done()
+						time.Sleep(20 * time.Millisecond)
+						pushEnd(vb)
+					}()
+					return sim.Default()
+				case endPhase == "s":
+					return sim.Delay(400 * time.Millisecond)
+				}
+				return sim.Default()
+			}
 			if openErr[r.Vb] {
 				a := sim.Status(memd.StatusInternalError)
 				if delay {
@@ -302,6 +441,7 @@ func stRun(op string, workDir string) (obs string, tags []string) {
 		return sim.Default()
 	})
 	res := l2RunChild("st", op, node.HTTPAddr(), extraEnv...)
+	close(childDone)
 	pushWg.Wait()
 	events := strings.Count(res.stdout, "EV\n")
 	final := ""
@@ -316,14 +456,26 @@ func stRun(op string, workDir string) (obs string, tags []string) {
 		seen[r.Vb]++
 		reqs = append(reqs, fmt.Sprintf("%d:%d,%d,%d,%d,%d,%d", r.Vb, r.Flags, r.VbUUID, r.Start, r.End, r.SnapStart, r.SnapEnd))
 	}
-	sort.Slice(reqs, func(i, j int) bool {
+	sort.SliceStable(reqs, func(i, j int) bool {
 		a, _ := strconv.Atoi(strings.SplitN(reqs[i], ":", 2)[0])
 		b, _ := strconv.Atoi(strings.SplitN(reqs[j], ":", 2)[0])
 		return a < b
 	})
+	endMu.Lock()
+	endsStr, refusedStr, reReqs := stCounts(ends), stCounts(refused), 0
+	for vb := range endVbs {
+		if seen[vb]-1 > reReqs {
+			reReqs = seen[vb] - 1
+		}
+	}
+	endMu.Unlock()
 	switch {
 	case res.exit == 0 && strings.HasPrefix(final, "running"):
 		tags = append(tags, "exit-0")
+		if endCase {
+			tags = append(tags, fmt.Sprintf("re-requests-%d", reReqs))
+			return fmt.Sprintf("running reqs=[%s] events=%d ends=[%s] refused=[%s]", strings.Join(reqs, " "), events, endsStr, refusedStr), tags
+		}
 		return fmt.Sprintf("running reqs=[%s] events=%d", strings.Join(reqs, " "), events), tags
 	case res.exit == 0:
 		return "child:" + final, append(tags, "child-odd")
@@ -342,7 +494,29 @@ func stRun(op string, workDir string) (obs string, tags []string) {
 		ev = "some"
 	}
 	tags = append(tags, "exit-fail", fmt.Sprintf("reqs-before-death-%d-of-%d", len(seen), n))
+	if endCase {
+		return fmt.Sprintf("exit-fail:%s events=%s rereqs=%d", cls, ev, reReqs), tags
+	}
 	return fmt.Sprintf("exit-fail:%s events=%s", cls, ev), tags
+}
+
+var stEndStatus = map[string]memd.StreamEndStatus{"state-changed": memd.StreamEndStateChanged, "disconnected": memd.StreamEndDisconnected,
+	"too-slow": memd.StreamEndTooSlow, "backfill-failed": memd.StreamEndBackfillFailed}
+
+// stCounts renders a per-vBucket counter as `vb:n vb:n` (sorted, zero entries left out)
+func stCounts(m map[uint16]int) string {
+	var ks []int
+	for k, v := range m {
+		if v > 0 {
+			ks = append(ks, int(k))
+		}
+	}
+	sort.Ints(ks)
+	var p []string
+	for _, k := range ks {
+		p = append(p, fmt.Sprintf("%d:%d", k, m[uint16(k)]))
+	}
+	return strings.Join(p, " ")
 }
 
 // ---------------------------------------------------------------- generator
@@ -355,6 +529,8 @@ type stSpec struct {
 	loadErr, flogErr, openErr           map[uint16]bool
 	seq                                 string
 	delay, push                         bool
+	end                                 string // "" or VBS:STATUS:PHASE
+	reRef                               map[uint16]bool
 }
 
 func (s *stSpec) op(f7 string) string {
@@ -364,9 +540,21 @@ func (s *stSpec) op(f7 string) string {
 		}
 		return "0"
 	}
-	return fmt.Sprintf("st-case %s meta=%s memb=%s file=%s lo=0 hi=%d mode=%s reset=%s docs=%s high=%s flog=%s loaderr=%s seq=%s f7=%s flogerr=%s openerr=%s delay=%s push=%s",
+	line := fmt.Sprintf("st-case %s meta=%s memb=%s file=%s lo=0 hi=%d mode=%s reset=%s docs=%s high=%s flog=%s loaderr=%s seq=%s f7=%s flogerr=%s openerr=%s delay=%s push=%s",
 		s.name, s.meta, s.memb, s.file, s.n-1, s.mode, s.reset, ckDocsStr(s.docs), ckPairsStr(s.high), ckPairsStr(s.flog),
 		ckVbsStr(s.loadErr), s.seq, f7, ckVbsStr(s.flogErr), ckVbsStr(s.openErr), b(s.delay), b(s.push))
+	if s.end != "" {
+		line += fmt.Sprintf(" end=%s reref=%s", s.end, ckVbsStr(s.reRef))
+	}
+	return line
+}
+
+func stVbList(vbs ...uint16) string {
+	m := map[uint16]bool{}
+	for _, vb := range vbs {
+		m[vb] = true
+	}
+	return ckVbsStr(m)
 }
 
 func stBase(name string, n int, r *Rng) *stSpec {
@@ -617,6 +805,151 @@ func runC15W(c *Ctx) {
 				s.push = false // a prompt error answer racing with traffic: either outcome; kept out of the generator
 			}
 			add(s.op(f7), "random")
+		}
+		// ---- cases appended later: they come after every older case so that the older lines keep their PRNG draws ----
+		// I. PARTIAL GET_ALL_VB_SEQNOS answer (status success, an assigned vBucket left out): checkpoint.Load reads the
+		// missing entry as high seqno 0, so any stored seqno > 0 of that vBucket is fatal; 0 / no checkpoint runs from 0
+		stored := func(s *stSpec, below bool) {
+			for vb := uint16(0); int(vb) < s.n; vb++ {
+				h := s.high[vb]
+				sv := h
+				if below {
+					sv = 1 + uint64(r.Intn(int(h)))
+				}
+				s.docs[vb] = ckDoc{u: s.flog[vb], s: sv, ss: 1, se: h + 5}
+			}
+		}
+		{
+			s := stBase(name("partial"), 4, r) // the stored position is below the TRUE high seqno of every vBucket
+			stored(s, true)
+			s.seq = "partial:3"
+			add(s.op(f7), "partial-seqnos", "partial-stored-positive")
+			s = stBase(name("partial"), 3, r) // smallest positive stored seqno
+			s.docs[1] = ckDoc{u: 7, s: 1, ss: 1, se: 1}
+			s.seq = "partial:1"
+			add(s.op(f7), "partial-seqnos", "partial-stored-positive")
+			s = stBase(name("partial"), 3, r) // a stored document with seqno 0: 0 > 0 is false, runs
+			s.docs[1] = ckDoc{u: 7}
+			s.seq = "partial:1"
+			add(s.op(f7), "partial-seqnos", "partial-stored-zero")
+			s = stBase(name("partial"), 4, r) // checkpoints elsewhere, none for the missing vBucket
+			stored(s, true)
+			delete(s.docs, 2)
+			s.seq = "partial:2"
+			add(s.op(f7), "partial-seqnos", "partial-no-checkpoint")
+			s = stBase(name("partial"), 3, r) // everything missing, nothing stored
+			s.seq = "partial:0,1,2"
+			add(s.op(f7), "partial-seqnos", "partial-no-checkpoint")
+			s = stBase(name("partial"), 3, r) // everything missing, one stored
+			s.docs[2] = ckDoc{u: 7, s: 3, ss: 1, se: 9}
+			s.seq = "partial:0,1,2"
+			add(s.op(f7), "partial-seqnos", "partial-stored-positive")
+			for _, mode := range []string{"inf", "fin"} { // auto-reset latest: the missing vBucket starts at 0, the others at their high seqno
+				s = stBase(name("partial"), 3, r)
+				s.reset, s.mode = "latest", mode
+				s.seq = "partial:1"
+				add(s.op(f7), "partial-seqnos", "partial-latest")
+			}
+			s = stBase(name("partial"), 3, r) // latest, but a checkpoint exists: not the latest branch
+			s.reset = "latest"
+			s.docs[0] = ckDoc{u: 4, s: 2, ss: 2, se: 2}
+			s.seq = "partial:1"
+			add(s.op(f7), "partial-seqnos", "partial-no-checkpoint")
+			s = stBase(name("partial"), 3, r) // the missing one is clean, a reported one is ahead
+			s.docs[0] = ckDoc{u: 4, s: s.high[0] + 1, ss: 1, se: s.high[0] + 1}
+			s.seq = "partial:1"
+			add(s.op(f7), "partial-seqnos", "partial-other-ahead")
+			s = stBase(name("partial"), 3, r) // finite mode
+			stored(s, false)
+			s.mode = "fin"
+			s.seq = "partial:0"
+			add(s.op(f7), "partial-seqnos", "partial-stored-positive")
+			s = stBase(name("partial"), 3, r) // finite mode, nothing stored: the missing vBucket is asked for [0, 0]
+			s.mode = "fin"
+			s.seq = "partial:2"
+			add(s.op(f7), "partial-seqnos", "partial-no-checkpoint")
+			s = stBase(name("partial"), 3, r) // file back end
+			s.meta, s.file = "file", "set"
+			stored(s, true)
+			s.seq = "partial:1,2"
+			add(s.op(f7), "partial-seqnos", "partial-stored-positive")
+			s = stBase(name("partial"), 3, r) // a vBucket the node does not have: the answer is complete
+			stored(s, true)
+			s.seq = "partial:9"
+			add(s.op(f7), "partial-seqnos", "partial-outside")
+		}
+		for i := 0; i < c.N(16, 120); i++ {
+			s := stBase(name("prand"), r.Range(2, 5), r)
+			s.mode, s.reset = r.Pick("inf", "fin"), r.Pick("earliest", "latest")
+			var miss []uint16
+			for vb := 0; vb < s.n; vb++ {
+				if r.Chance(35) {
+					miss = append(miss, uint16(vb))
+				}
+				if r.Chance(50) {
+					h := s.high[uint16(vb)]
+					sv := uint64(r.Intn(int(h) + 1))
+					if r.Chance(40) {
+						sv = 0
+					}
+					s.docs[uint16(vb)] = ckDoc{u: ckVal(r), s: sv, ss: ckVal(r), se: ckVal(r)}
+				}
+			}
+			if len(miss) == 0 {
+				miss = append(miss, uint16(r.Intn(s.n)))
+			}
+			s.seq = "partial:" + stVbList(miss...)
+			add(s.op(f7), "partial-seqnos", "partial-random")
+		}
+		// J. a stream that the node ends with a re-openable status WHILE start-up is still opening the other vBuckets
+		// (stream.open is still false) must be requested again from the same position; and when every re-request is
+		// refused the bounded retries (5, 1 s apart) end in a fail-stop - never a session without that vBucket
+		statuses := []string{"state-changed", "disconnected", "too-slow", "backfill-failed"}
+		for i, stt := range statuses {
+			s := stBase(name("endopen"), 4, r)
+			s.end = fmt.Sprintf("%s:%s:s", stVbList(uint16(i)), stt)
+			if i%2 == 1 {
+				stored(s, true) // the re-request must name the stored position again
+			}
+			add(s.op(f7), "end-during-startup", "end-"+stt)
+		}
+		{
+			s := stBase(name("endopen"), 4, r)
+			s.end = "1,2:state-changed:s"
+			s.mode = "fin"
+			add(s.op(f7), "end-during-startup", "end-two")
+			s = stBase(name("endopen"), 3, r)
+			s.end = "0,1:too-slow:s"
+			s.reset = "latest"
+			add(s.op(f7), "end-during-startup", "end-two")
+			s = stBase(name("endopen"), 2, r)
+			s.end = "1:disconnected:s"
+			stored(s, false)
+			add(s.op(f7), "end-during-startup", "end-disconnected")
+		}
+		for _, stt := range []string{"state-changed", "backfill-failed"} { // control: the same end once start-up is over
+			s := stBase(name("endrun"), 3, r)
+			s.end = "1:" + stt + ":r"
+			add(s.op(f7), "end-after-startup", "end-"+stt)
+		}
+		// every re-request refused: ~5 s per child (they run in parallel with everything else)
+		gaveUp := []struct {
+			vb     uint16
+			status string
+			phase  string
+		}{{0, "state-changed", "s"}}
+		if c.N(0, 1) == 1 {
+			gaveUp = append(gaveUp, []struct {
+				vb     uint16
+				status string
+				phase  string
+			}{{2, "too-slow", "s"}, {1, "disconnected", "s"}, {3, "backfill-failed", "s"}, {1, "state-changed", "r"}, {0, "too-slow", "r"}}...)
+		}
+		for _, g := range gaveUp {
+			s := stBase(name("endrefused"), 4, r)
+			s.end = fmt.Sprintf("%d:%s:%s", g.vb, g.status, g.phase)
+			s.reRef = map[uint16]bool{g.vb: true}
+			add(s.op(f7), "reopen-refused", "end-"+g.status, "phase-"+g.phase)
 		}
 	}
 	type res struct {
